@@ -1034,17 +1034,23 @@ def latency_jobs(tier, rng):
     for m in modes:
         chosen.append(next(c for c in combos if c[0] == m))
     chosen += [c for c in combos if c not in chosen][: max(0, n - len(chosen))]
-    for i, (mode, depth, par) in enumerate(chosen):
+    # adaptive batching, ONE element at a time in quick succession (below the max delay, so no age flush at
+    # enqueue), through a single batcher (forward boundaries or parallelism 1), after the source went idle
+    forced = [("adaptive:1000:20000", 1, 1, "single_path"), ("adaptive:64:20000", 2, 3, "single_path"),
+              ("adaptive:1000:20000", 3, 2, "single_path")]
+    plan = [(m, d, p, "mixed") for (m, d, p) in chosen] + forced
+    for i, (mode, depth, par, shape) in enumerate(plan):
         nodes = [{"id": "s", "op": "src", "kind": "channel", "cap": 1024}]
         cur = "s"
         for d in range(depth):
             nodes.append({"id": f"m{d}", "op": "map", "f": "inc", "in": [cur]})
             # a forward connection is legal only towards equally many or a single replica
-            nodes.append({"id": f"x{d}", "op": rng.choice(["shuffle", "shuffle", "replicate"]), "repl": "one", "in": [f"m{d}"]})
+            opk = "replicate" if shape == "single_path" else rng.choice(["shuffle", "shuffle", "replicate"])
+            nodes.append({"id": f"x{d}", "op": opk, "repl": "one", "in": [f"m{d}"]})
             cur = f"x{d}"
         nodes.append({"id": "k", "op": "sink", "kind": "collect_channel", "in": [cur]})
-        k = rng.choice([1, 2, 5])
-        pauses = rng.choice([[0], [0, 40], [0, 5, 120]])
+        k = 1 if shape == "single_path" else rng.choice([1, 2, 5])
+        pauses = [0, 6, 7, 9, 40, 5] if shape == "single_path" else rng.choice([[0, 6], [30, 5, 9], [0, 40, 7], [0, 5, 120], [60, 8]])
         feed = []
         t = 0
         v = 0
@@ -1054,7 +1060,7 @@ def latency_jobs(tier, rng):
             v += k
         idle = 2500
         feed.append({"at_ms": t + idle, "close": True})
-        jobs.append({"id": f"lat{i}_{mode}_d{depth}_p{par}", "prog": {"nodes": nodes},
+        jobs.append({"id": f"lat{i}_{mode}_d{depth}_p{par}_{shape}", "prog": {"nodes": nodes},
                      "cfg": {"mode": "local", "par": par}, "batch": mode, "trace": True,
                      "keep": ["fed", "arrive", "close", "enq", "send", "recv"], "feed": feed,
                      "hang_ms": 20000, "meta": {"adaptive": mode.startswith("adaptive")}})
